@@ -44,7 +44,7 @@ CHECKS = {
  "C13": ("fault_enumeration", "differential against crypto/ecdsa over (r,s) class products, constructed wrapped-r signatures, digest lengths and DER corruptions (exhaustive bit flips/truncations of a valid DER per curve, seeded strings); the same signature in other encodings (raw r||s, P1363, hex, wrapped); histories of consecutive Verify/VerifyASN1 calls over a key, its negation and neighbours on one key object, one (r, s) pair and one set of buffers updated in place; producer cross-verification; GenerateKey and all signing entry points under a scripted entropy reader failing permanently at every position 0..need+1 in four chunkings",
          "trusted: crypto/ecdsa of the building toolchain; failing reads deliver no bytes and failures are permanent",
          "runtime monitoring: differential oracle + exhaustive entropy-fault enumeration"),
- "C14": ("fault_enumeration", "byte-for-byte differential against crypto/ed25519 for keys and signatures, verdict differential on small-order / non-canonical / S+kL / bit-flipped / forged / identity-key high-S inputs, a verification as the very first operation of every worker process, histories of 12-22 consecutive Verify calls over related inputs with all buffers refilled in place, all 864 scalars with 64-bit limbs in {0,1,2^64-1,2^63,2^32-1,2^63+1}, GenerateKey under identical scripted readers at every fault position; operation-level comparison of the fork's scalar and point arithmetic with a math/big Edwards model through verif-tagged hooks",
+ "C14": ("fault_enumeration", "byte-for-byte differential against crypto/ed25519 for keys and signatures, verdict differential on small-order / non-canonical / S+kL / bit-flipped / forged / identity-key high-S inputs, a verification as the very first operation of every worker process, histories of 12-22 consecutive Verify calls over related inputs with all buffers refilled in place, all 864 scalars with 64-bit limbs in {0,1,2^64-1,2^63,2^32-1,2^63+1}, GenerateKey under identical scripted readers at every fault position; operation-level comparison of the fork's field (51-bit limb patterns, non-canonical encodings, expressions with non-canonical intermediates, SqrtRatio), scalar and point arithmetic with math/big models through verif-tagged hooks",
          "trusted: crypto/ed25519; the math/big model (internal/ref/edwards.go), itself cross-checked against crypto/ed25519 in every run",
          "runtime monitoring: differential oracle + reference-model checks at hooks + entropy-fault enumeration"),
  "C15": ("exploration", "Ed25519 key blinding over seeds x blinds (incl. all-zero/all-ones, pool pairs) x contexts x messages: blinded key equals SHA-512-derived scalar times A in the math/big model, deterministic signatures verify under crypto/ed25519 and the fork and not under the original key, unblind inverts, blindings commute, blind/context separation; histories of 14 consecutive calls (also with nothing between two blinding calls) with key, blind and context buffers refilled in place",
